@@ -63,6 +63,10 @@ def node_positions(toks):
     return pos
 
 
+def first_positions(toks):
+    return [i + 1 for i, t in enumerate(toks) if t[0] == 'n']
+
+
 def decorate(toks, deco):
     """deco: list of operations, applied right-to-left on token positions.
     ('pre',)            [#V]. at the start
@@ -73,6 +77,7 @@ def decorate(toks, deco):
     order: sym for the virtual attachment ('.' = inert, '' or '=' = negative family)"""
     toks = list(toks)
     pos = node_positions(toks)
+    fpos = first_positions(toks)
     ins = []        # (position, tokens, tie-break)
     rid = 7
     for k, d in enumerate(deco):
@@ -96,6 +101,11 @@ def decorate(toks, deco):
             rid += 1
         elif d[0] == 'zring':
             ins.append((pos[d[1]], [('b', '.'), ('r', rid, 'd')], k - 100))
+            ins.append((pos[d[2]], [('r', rid, 'd')], k - 100))
+            rid += 1
+        elif d[0] == 'zring-first':
+            # the zero-order marker is written directly after the node, in front of its other ring markers
+            ins.append((fpos[d[1]], [('b', '.'), ('r', rid, 'd')], k - 200))
             ins.append((pos[d[2]], [('r', rid, 'd')], k - 100))
             rid += 1
     # ring markers must directly follow the node: insert them before branches at the same position
@@ -127,6 +137,8 @@ def decorations(toks, two):
             if (i, j) not in edges:
                 yield [('zring', i, j, '.')], 'inert'
                 yield [('zring', i, j, '.'), ('suf', '.')], 'inert'
+                if toks[first_positions(toks)[i]][0] == 'r' if first_positions(toks)[i] < len(toks) else False:
+                    yield [('zring-first', i, j, '.')], 'inert'
     if two:
         for a, b in itertools.combinations(single[:2 + n], 2):
             yield [a + ('.',), b + ('.',)], 'inert'
